@@ -8,6 +8,7 @@ package processor
 // quorum (own signature included) was fed in is published by the time the loop is quiescent.
 
 import (
+	"sync/atomic"
 	"context"
 	"encoding/hex"
 	"fmt"
@@ -53,7 +54,7 @@ func TestVerifProcRun(t *testing.T) {
 	}
 	vWithSupervisor(t, func(root context.Context) {
 		o.emit(vRunRestart(t, root, w, 900000))
-		for id := 0; id < n; id++ {
+		for id := 0; id < n && atomic.LoadInt32(&vRunWedges) < 2; id++ {
 			o.emit(vRunOne(t, root, w, id))
 		}
 	})
@@ -161,6 +162,9 @@ func vRunRestart(t *testing.T, root context.Context, w *vWorld, id int) *vRunRow
 	return row
 }
 
+// Run loops that stopped taking inputs, over the whole test run
+var vRunWedges int32
+
 func vRunOne(t *testing.T, root context.Context, w *vWorld, id int) *vRunRow {
 	r := w.r
 	row := &vRunRow{K: "run", ID: id, Mon: []string{}}
@@ -237,7 +241,8 @@ func vRunOne(t *testing.T, root context.Context, w *vWorld, id int) *vRunRow {
 			done <- msg
 			return false
 		case <-time.After(20 * time.Second):
-			row.Mon = append(row.Mon, "harness: Run loop did not accept an input within 20 s")
+			atomic.AddInt32(&vRunWedges, 1)
+			row.Mon = append(row.Mon, "C13: the processor's Run loop did not take an input from its channels within 20 s: the single processor goroutine is stuck (no panic, no restart), nothing is signed or published any more")
 			return false
 		}
 	}
